@@ -1,4 +1,5 @@
 import BadgerModel.Mvcc
+import BadgerModel.Drop
 import BadgerModel.Driver.Util
 /-! `mvcc` engine: the whole-database model driven by one op per line (see harness/eng_mvcc.go). -/
 namespace Badger.Driver
@@ -167,6 +168,12 @@ def mvccStep (d : Db) (line : String) : Db × String :=
     (d, "ok")
   -- DropAll ends with `db.threshold.Clear(db.opt)`; in InMemory mode `db.opt.ValueThreshold` was
   -- overwritten with MaxInt32 by Open, so from then on `valueThreshold()` is MaxInt32 (finding F18)
+  -- the table groups `dropPrefixes` is going to rewrite on levels ≥ 1 (bottom-up), by file id
+  | "dropplan" :: ps =>
+    let pfx := (ps.filter (fun w => !w.contains '=')).filterMap fromHex
+    let plan := d.lsm.dropPlan pfx
+    (d, "plan " ++ String.intercalate ";" (plan.map (fun (lvl, gs) =>
+      s!"L{lvl}:" ++ String.join (gs.map (fun g => "[" ++ String.intercalate "," (g.map toString) ++ "]")))))
   | ["dropall"] =>
     let o := if d.opts.inMemory then { d.opts with threshold := 2147483647 } else d.opts
     ({ d with lsm := Lsm.init d.opts.maxLevels, opts := o }, "ok")
